@@ -69,7 +69,9 @@ impl Stride {
                 true
             }
             Stride::Striding(stride, count) => {
-                if item == *stride * *count {
+                // `stride * count` in exact arithmetic: a product that does not fit `usize`
+                // cannot equal `item`.
+                if stride.checked_mul(*count) == Some(item) {
                     *count += 1;
                     true
                 } else if item == *stride * (*count - 1) {
